@@ -480,3 +480,64 @@ func TestC03_P_RequestsFromOneLoadedRoot(t *testing.T) {
 		ev.Sample(map[string]any{"requests": label, "entities": root.count(), "crossing_requests": crossing})
 	})
 }
+
+// One process asks for path selectors for thousands of different paths (a gateway does): each selector resolves its own
+// path, also when a path is asked for again much later. Short form and builder form alike.
+func TestC03_R_SelectorsForThousandsOfPaths(t *testing.T) {
+	st := NewStore()
+	const n = 2500
+	es := make([]entrySpec, n)
+	want := map[string]cid.Cid{}
+	for i := range es {
+		name := fmt.Sprintf("e%04d", i)
+		c, _, err := buildFile(st, []byte(name), "size-64", 2)
+		if err != nil {
+			t.Fatal(err)
+		}
+		es[i] = entrySpec{Name: name, Cid: c, Tsize: uint64(len(name))}
+		want[name] = c
+	}
+	root, _, err := buildSharded(st, es, 256)
+	if err != nil {
+		t.Fatal(err)
+	}
+	ls := st.LinkSystem()
+	pn, err := loadPlain(ls, root)
+	if err != nil {
+		t.Fatal(err)
+	}
+	resolve := func(name string, short bool) string {
+		spec := unixfsnode.UnixFSPathSelectorBuilder(name, unixfsnode.MatchUnixFSSelector, false)
+		if short {
+			spec = unixfsnode.UnixFSPathSelector(name)
+		}
+		sel, err := selector.CompileSelector(spec)
+		if err != nil {
+			t.Fatal(err)
+		}
+		var got []string
+		prog := traversal.Progress{Cfg: &traversal.Config{Ctx: sessionCtx, LinkSystem: *ls, LinkTargetNodePrototypeChooser: protoChooser}}
+		if err := prog.WalkMatching(pn, sel, func(p traversal.Progress, n datamodel.Node) error {
+			b, err := n.AsBytes()
+			got = append(got, fmt.Sprintf("%s=%s", p.Path.String(), b))
+			return err
+		}); err != nil {
+			t.Fatalf("C03: path %q: %v", name, err)
+		}
+		return strings.Join(got, ",")
+	}
+	for _, short := range []bool{true, false} {
+		order := make([]string, 0, n+200)
+		for i := 0; i < n; i++ {
+			order = append(order, es[i].Name)
+		}
+		for i := 0; i < 200; i++ { // ... and the earliest ones again
+			order = append(order, es[i*7%n].Name)
+		}
+		for k, name := range order {
+			if got := resolve(name, short); got != name+"="+name {
+				t.Fatalf("C03: selector #%d of this process (short form %v) for path %q matched [%s], want exactly the entry %q", k+1, short, name, got, name)
+			}
+		}
+	}
+}
